@@ -1,0 +1,8 @@
+//go:build verif
+
+package observation
+
+// VerifSize returns the number of registered observations (verification harness only).
+func (h *Handler[C]) VerifSize() int {
+	return h.observations.Length()
+}
